@@ -21,7 +21,7 @@ from vlib.tr_fault import tr_fault
 from vlib.syslevel import run_many
 from vlib.faultlib import run_fscript, call_line, effective_config, cfg_fields, obs_fields, PLAUSIBLE, NEVER_FAIL
 
-ELAPSED_BOUND_MS = 3000      # generous: a healthy call takes a few ms; a blocked one never returns (8 s alarm in the caller)
+ELAPSED_BOUND_MS = 5000      # generous: a healthy call takes a few ms; a blocked one never returns (8 s alarm in the caller)
 ALL_DS = (b"io %{cwd} %{rpname} %{tty} %{tty_uid} %{tty_username} %{username} %{eusername} %{group} %{egroup} %{hostname} %{domain} %{login} "
           b"%{cgroup:name=systemd} %{cgroup:1} %{systemd_unit_name} %{datetime} %{datetime:%s} %{timestamp} %{timestamp_ms} %{timestamp_us} %{ipaddr} "
           b"%{cmdline} %{uid} %{pid} %{env:HOME} %{snoopy_threads} %{filename}")
@@ -257,6 +257,8 @@ def check(run):
                 state["fnset"].add(r[1])
 
     def job(s):
+        import random
+        rng = random.Random("%d:%s" % (run.seed, s["name"]))      # per scenario: the plans do not depend on thread scheduling
         out = []
         res, script = run_scenario(run, lib, s, ["-"], "%s-base" % re.sub(r"[^a-z0-9]+", "-", s["name"]))
         if "tmpfs" in res:
@@ -340,6 +342,10 @@ def check(run):
         "traces_validated_against_impl": state["naccept"],
         "model_rejections": len(corr_bad),
     })
+    observations = observe_outside(run, lib, fv)
+    run.coverage["observations_outside_enumerated_states"] = observations
+    for o_ in observations:
+        run.notes.append("outside the enumerated sink states (not claimed either way): %s -> observed: %s; table: %s" % (o_["state"], o_["observed"], o_["table"]))
     if state["tmpfs"] is False:
         run.notes.append("mount of a tiny tmpfs was not permitted: ENOSPC sink state covered by /dev/full and by injection only")
     run.notes.append("stdout/stderr outputs write to descriptors the caller owns (SIGPIPE / blocking on a reader-less or full pipe possible), file: pointed at a FIFO and a "
@@ -357,6 +363,42 @@ STRACE_ERRS = {"openat": ["ENOENT", "EMFILE", "EINTR"], "read": ["EIO", "EINTR",
                "socket": ["EMFILE", "ENOBUFS"], "connect": ["ECONNREFUSED", "ENOENT", "EAGAIN", "EINTR"], "sendto": ["EAGAIN", "ENOBUFS", "ECONNREFUSED", "EINTR"],
                "newfstatat": ["EACCES", "EIO"], "fstat": ["EIO"], "getcwd": ["ENOENT"], "ioctl": ["ENOTTY", "EIO"], "readlink": ["EACCES"], "readlinkat": ["EACCES"],
                "lseek": ["ESPIPE"], "access": ["EACCES"], "faccessat": ["EACCES"], "fcntl": ["EINTR", "EAGAIN"], "statx": ["EACCES"], "getdents64": ["EIO"]}
+
+
+def observe_outside(run, lib, fv):
+    """States the property does NOT enumerate, run for the record (never a verdict): what really happens, and what the table says."""
+    obs = []
+    cases = [
+        ("stdout output, caller's stdout is a pipe without reader", [b"output = stdout"], ["stdfd\t1\tpipe-noreader"], ["ok", "noreader", "plain", "1"]),
+        ("stderr output, caller's stderr is a pipe without reader", [b"output = stderr"], ["stdfd\t2\tpipe-noreader"], ["ok", "plain", "noreader", "1"]),
+        ("stdout output, caller's stdout is a full pipe nobody drains", [b"output = stdout"], ["stdfd\t1\tpipe-full"], ["ok", "full", "plain", "1"]),
+        ("file output pointed at a FIFO nobody reads", [b"output = file:@D@/fifo"], ["fifo\t@D@/fifo"], ["fifo", "plain", "plain", "1"]),
+    ]
+    lines = []
+    res_all = []
+    for i, (what, ini, setup, world) in enumerate(cases):
+        s = {"name": "observe-%d" % i, "lines": [b"[snoopy]"] + ini + [b'message_format = "x %{cmdline}"'], "setup": ["stdin\tnull", "timeout\t2"] + setup, "world": world, "argv": [b"true"]}
+        res, script = run_scenario(run, lib, s, ["-"], "observe-%d" % i)
+        c = res["calls"][0] if res["calls"] else None
+        if c is None:
+            seen = "caller died before the call"
+        elif c["fatal"]:
+            seen = "BLOCKED (no return within 2 s)" if c["fatal"].startswith("timeout") else "died: " + c["fatal"]
+        elif c["ret"] is not None and c["ret"][6] != "-":
+            seen = "signal %s delivered to the caller, exec reached" % c["ret"][6]
+        else:
+            seen = "exec reached, no signal"
+        res_all.append((what, seen, s, c))
+        # what the table says about the same world, on a nominal trace of that output (from the fault-free run of a healthy sink)
+        nominal = {"stdout": [["0", "dprintf", "1", "-", "5", "0", "-", "0"]], "stderr": [["0", "fprintf", "stderr", "-", "5", "0", "-", "0"]],
+                   "file": [["0", "open", (b"/x").hex(), str(fv["file_oflags"]), "0", "0", "-", "0"], ["1", "write", "reg", "5", "5", "0", "-", "0"]]}[ini[0].split(b"=")[1].strip().split(b":")[0].decode()]
+        lines.append("\t".join(["spec"] + world + obs_fields(nominal, True)))
+    cp = os.path.join(run.scratch, "c03-observe.txt")
+    open(cp, "w").write("".join(l + "\n" for l in lines))
+    mo = run.run_model("fault", cp, cp + ".out")
+    for (what, seen, s, c), verdict in zip(res_all, mo):
+        obs.append({"state": what, "observed": seen, "table": verdict.replace("\t", " ")})
+    return obs
 
 
 def strace_search(run, lib, scs, state, report):
